@@ -100,6 +100,23 @@ def run_case(ctx, i, rng):
                             ctx.count("bus_names_with_wildcard_characters", 2)
                         except ValueError:
                             pass
+        if i % 6 == 0:
+            # names are free text: punctuation that is not legal in an EDIF identifier (library names included: a library that
+            # holds hierarchy is then referenced by its generated identifier), leading digits, a lone percent sign
+            pool = list(n.libraries) + [d_ for l in n.libraries for d_ in l.definitions]
+            pool += [c for l in n.libraries for d_ in l.definitions for c in list(d_.children) + [x for x in d_.cables if len(x.wires) == 1 and x.is_scalar]]
+            for k_, x_ in enumerate(rng.sample(pool, min(len(pool), rng.randint(3, 8)))):
+                ch = rng.choice(["%", "-", ".", "$", "#", "@", "!", "+", "=", ",", ":", "~", "^", "&", "|", " ", "%%", "-%"])
+                form = rng.randrange(4)
+                old_ = x_.name or "x"
+                nm_ = (old_ + ch + "t%d" % k_, "%d%s%s" % (rng.randrange(10), ch, old_), ch + old_ + "_%d" % k_, "%s%d%s" % (old_, k_, ch))[form]
+                try:
+                    x_.name = nm_
+                    ctx.count("names_with_punctuation")
+                    if isinstance(x_, sdn.Library):
+                        ctx.count("library_names_with_punctuation")
+                except ValueError:
+                    pass
         if i % 6 == 4:
             # very long names (around and beyond the 255-character identifier limit): the writer shortens the identifier,
             # the name itself must come back unchanged
